@@ -64,7 +64,7 @@ BOUNDS = {
              'on 4 qudits (2 rounds); ExtendBlockSize(2..3) after Quick/GroupSingle: n<=3 on 3 qudits; gaps (one pop) n<=3 '
              'on 3 qudits; Quick early flush: 10-11 ops on 6 qudits, 5-6 symbolic positions x 3 variants, block 2-4',
     'thorough': 'Quick+Scan+GroupSingle: n<=5 two-qudit ops on 5 qudits (block 3; block 2-4 for n<=4 and for n=5 on 4 '
-                'qudits), n<=4 mixed arity on 4 qudits (block 2-3), n<=3 mixed on 5 qudits (block 2-4), reversed '
+                'qudits), n<=4 mixed arity on 4 qudits (block 2-3), n<=3 mixed on 5 qudits (block 2-3), reversed '
                 'locations / gaps / already-blocked n<=3 on 4 qudits; Greedy: n<=4 two-qudit on 5 qudits, n<=4 mixed on 4 '
                 'qudits (first op 3-qudit), n<=3 otherwise; barrier families n<=4 on 3 qudits, n<=3 on 4-5 qudits; '
                 'Clustering n<=3 on 3-5 qudits, up to 2 rounds; ExtendBlockSize(2..4) after Quick/Scan/GroupSingle n<=3 on '
@@ -342,7 +342,7 @@ def obligations(tier: str) -> list[dict]:
     for k0 in G:
         ob(QSS, 4, 4, G, [2, 3], T, 'mixed', kinds0=[k0])
     ob(GR, 4, 4, G, [2, 3], T, 'mixed', kinds0=[3])
-    ob(QSS, 5, 3, G, [2, 4], T, 'mixed')
+    ob(QSS, 5, 3, G, [2, 3], T, 'mixed')
     ob(GR, 5, 3, G, [2, 3], T, 'mixed')
     ob(QSS, 4, 3, GB, [2, 3], T, 'blocked')
     ob(GR, 4, 3, GB, [2, 3], T, 'blocked')
@@ -364,7 +364,6 @@ def obligations(tier: str) -> list[dict]:
         ob([part], 3, 3, BB, [2, 3], T, 'barriers-b')
     ob(CL, 3, 3, BA, [2, 3], T, 'barriers-a')
     ob(CL, 4, 3, G, [3, 3], T, 'gates')
-    ob(CL, 5, 3, G, [4, 4], T, 'gates', a0=[0, 0])
     ob(CL, 4, 3, [1, 2], [2, 2], T, 'gates')
     ob(CL, 3, 3, [1, 2], [2, 2], T, 'gates', points=2)
     ob(CL, 3, 3, G, [2, 2], T, 'widegate')
